@@ -35,6 +35,9 @@ type Schema struct {
 	Tier         string // "quick" or "thorough"
 	ExtraDeps    []*descriptorpb.FileDescriptorProto // non-generated, non-wellknown deps (e.g. cosmos.proto)
 	PerFile      bool // one plugin invocation per file to generate (the way protoc is usually driven), outputs merged
+	// OutMap places response files whose names are not import-path based (paths=source_relative, module=) into the
+	// directory of their Go package: response name -> name under the corpus root. A name it does not list is kept.
+	OutMap map[string]string
 }
 
 // Result of running the plugin on a schema.
@@ -219,7 +222,11 @@ func (w *Workspace) Run(s *Schema) *Result {
 	}
 	res.Response = resp
 	for _, f := range resp.File {
-		res.Files[f.GetName()] = f.GetContent()
+		n := f.GetName()
+		if to, ok := s.OutMap[n]; ok {
+			n = to
+		}
+		res.Files[n] = f.GetContent()
 	}
 	return res
 }
